@@ -710,8 +710,8 @@ def snippet_for(case, prop):
 class C01(Property):
     id = "C01"
     prop_modules = ["CobaVerif.Props.C01"]
-    quick_n = 260
-    thorough_n = 6000
+    quick_n = 400
+    thorough_n = 12000
     search_n = 500
     case_timeout = 120
     workers = 8
@@ -732,7 +732,7 @@ class C01(Property):
     partial_theorems = {}
 
     def generate(self, rng, tier):
-        real_p = 0.035 if tier == "quick" else 0.012
+        real_p = 0.022 if tier == "quick" else 0.006
         if rng.chance(0.72):
             return gen_toy(rng, tier, real_p)
         return gen_builtin(rng, tier, real_p)
@@ -768,6 +768,9 @@ class C01(Property):
                    "mode": "product", "pe": [0, 1], "pl": [0, 1, 2], "pv": [0], "single_eval": True,
                    "runs": [{"cfg": [1, 0, 0], "how": "inproc", "sched": 0}, {"cfg": [2, 0, 1], "how": "real", "sched": 0}, {"cfg": [3, 1, 0], "how": "sim", "sched": 9}], "rerun": True})
         return cs
+
+    def exhaustive(self, tier):
+        return small_scope_cases()
 
     # ---- evaluation
     def evaluate(self, case, driver):
@@ -855,6 +858,24 @@ class C01(Property):
 
 def _short(res, parts):
     return json.dumps({p: res[p] for p in parts}, sort_keys=True)[:500]
+
+
+def small_scope_cases():
+    """finite sweep (thorough tier): every tuple list of length <= 3 over 2 environments (one chunk()ed and shared through a
+    shuffle fan-out) x 2 learners x 2 evaluators, i.e. every sharing / duplication pattern of up to three triples, each under
+    in-process splitting, one simulated 2-worker schedule and one simulated restarting 3-worker schedule"""
+    import itertools
+    envs = [{"tag": 0, "xs": [2, 1, 3], "prefix": [["chunk"]], "branches": [[["shuffle", 2]]]}]
+    lrns = [{"tag": 0, "mult": 1}, {"tag": 1, "mult": 2, "fp": 2}]
+    vals = [{"tag": 0, "seed": None, "learn": True}, {"tag": 1, "seed": 4, "learn": True}]
+    atoms = [[e, l, v] for e in (0, 1) for l in (0, 1) for v in (0, 1)]
+    k = 0
+    for n in (1, 2, 3):
+        for ts in itertools.product(atoms, repeat=n):
+            k += 1
+            yield {"kind": "toy", "seed": 5, "envs": envs, "lrns": lrns, "vals": vals, "mode": "tuples", "triples": [list(t) for t in ts],
+                   "runs": [{"cfg": [1, 0, 0], "how": "inproc", "sched": 0}, {"cfg": [1, 0, 1], "how": "inproc", "sched": 0},
+                            {"cfg": [2, 0, 0], "how": "sim", "sched": k}, {"cfg": [3, 1, 2], "how": "sim", "sched": k + 7}]}
 
 
 def cache_defect_case():
